@@ -110,14 +110,21 @@ class Ctx:
         e = dict(os.environ)
         if env:
             e.update(env)
-        cmd = ["tlc", "-workers", str(workers), "-metadir", os.path.join(d, "meta"), "-config", cfg] + list(extra) + [spec]
         t0 = time.time()
-        try:
-            r = subprocess.run(cmd, cwd=d, env=e, capture_output=True, text=True, timeout=timeout)
-        except subprocess.TimeoutExpired:
-            subprocess.run(["pkill", "-f", "tlc2.TL[C]"])
-            raise MachineryError("TLC timeout on %s/%s" % (spec, cfg))
-        out = r.stdout + r.stderr
+        for attempt in range(3):
+            cmd = ["tlc", "-workers", str(workers), "-metadir", os.path.join(d, "meta%d" % attempt), "-config", cfg] + list(extra) + [spec]
+            try:
+                r = subprocess.run(cmd, cwd=d, env=e, capture_output=True, text=True, timeout=timeout)
+            except subprocess.TimeoutExpired:
+                shutil.rmtree(d, ignore_errors=True)
+                raise MachineryError("TLC timeout on %s/%s" % (spec, cfg))
+            out = r.stdout + r.stderr
+            # a JVM that could not start or ran out of memory under load says nothing about the specification: try again
+            jvm_trouble = ("Starting..." not in out and "Parse Error" not in out and "Semantic error" not in out) or \
+                "OutOfMemoryError" in out or "insufficient memory" in out or "Cannot allocate memory" in out
+            if not jvm_trouble:
+                break
+            time.sleep(5 + 10 * attempt)
         shutil.rmtree(d, ignore_errors=True)
         return out, r.returncode, time.time() - t0
 
